@@ -152,6 +152,22 @@ class _Inliner:
             if len(call.args) > len(ps) or any(k.arg not in ps for k in call.keywords):
                 return None
             return g
+        elif isinstance(call.func, ast.Attribute) and isinstance(call.func.value, ast.Name) and call.func.value.id != 'self' and \
+                self._local_object_class(call.func.value.id) is not None:
+            # x.m(..) where the local x is bound once, to K(..), K a class of this module without subclasses here: m is pasted
+            # in with its ``self`` standing for x (the object itself stays what it is)
+            ci = self._local_object_class(call.func.value.id)
+            g = ci.methods.get(call.func.attr)
+            if g is None or g in self.keep or g.is_generator or g.decorators or not _returns_ok(g) or g in scope or g.nested or \
+                    g.node.args.vararg or g.node.args.kwarg or g.node.args.kwonlyargs or not g.params or g.name.startswith('__') or \
+                    any(isinstance(n, (ast.Global, ast.Nonlocal)) for n in own_nodes(g.node)) or \
+                    any(isinstance(n, ast.Name) and n.id == g.params[0] and isinstance(n.ctx, (ast.Store, ast.Del)) for n in own_nodes(g.node)) or \
+                    any(isinstance(n, (ast.Lambda, ast.FunctionDef)) for n in own_nodes(g.node) if n is not g.node):
+                return None
+            ps = g.params[1:]
+            if len(call.args) > len(ps) or any(k.arg not in ps for k in call.keywords):
+                return None
+            return g
         elif isinstance(call.func, ast.Attribute) and isinstance(call.func.value, ast.Attribute) and \
                 isinstance(call.func.value.value, ast.Name) and call.func.value.value.id == 'self' and self.f.cls is not None and \
                 self._field_class(call.func.value.attr) is not None:
@@ -179,6 +195,24 @@ class _Inliner:
         if len(call.args) > len(ps) or any(k.arg not in ps for k in call.keywords):
             return None
         return g
+
+    def _local_object_class(self, name):
+        """the class K of this module (without subclasses in it) when the local ``name`` of the function under view is bound
+        exactly once, to ``K(..)``; else None"""
+        cache = self.__dict__.setdefault('_local_classes', {})
+        if name not in cache:
+            cache[name] = None
+            top = self.top if self.top is not None else self.f.node
+            params = {a_.arg for a_ in top.args.args + top.args.kwonlyargs + top.args.posonlyargs}
+            stores = [x for x in ast.walk(top) if isinstance(x, ast.Name) and x.id == name and isinstance(x.ctx, (ast.Store, ast.Del))]
+            defs = [s_ for s_ in ast.walk(top) if isinstance(s_, ast.Assign) and len(s_.targets) == 1 and isinstance(s_.targets[0], ast.Name) and
+                    s_.targets[0].id == name]
+            if name not in params and len(stores) == 1 and len(defs) == 1 and isinstance(defs[0].value, ast.Call) and \
+                    isinstance(defs[0].value.func, ast.Name) and defs[0].value.func.id in self.mod.classes:
+                ci = self.mod.classes[defs[0].value.func.id]
+                if not self.repo.subclasses(ci, strict=True) and not self._plain_class(ci):
+                    cache[name] = ci
+        return cache[name]
 
     def _field_class(self, field):
         """the helper class of this module whose instances are the only values ever stored in ``self.<field>`` (by any
@@ -333,6 +367,9 @@ class _Inliner:
         me = g.params[0] if g.cls is not None and g.params else None
         if isinstance(call.func, ast.Attribute) and isinstance(call.func.value, ast.Attribute) and me is not None and g.cls is not self.f.cls:
             subst[me] = call.func.value         # the helper object lives in a field: its ``self`` is ``self.<field>``
+        if isinstance(call.func, ast.Attribute) and isinstance(call.func.value, ast.Name) and me is not None and g.cls is not self.f.cls and \
+                objname is None and call.func.value.id != 'self':
+            subst[me] = call.func.value         # a local object: its ``self`` is that local
         obj_methods = set(self.objs[objname].methods) if objname else set()
 
         class Sub(ast.NodeTransformer):
